@@ -61,6 +61,27 @@ func H_C31_exclusion() {
 	verifrt.Reach("returned")
 }
 
+// H_C31_sameRepo: three operations on the SAME repository (the case where one is refused while another
+// is in flight and a third arrives): never two of them run at once, whatever the interleaving.
+func H_C31_sameRepo() {
+	verifrt.EnableThreads(verifrt.Param("sched", 60, 80))
+	verifrt.PreemptionBound(verifrt.Param("preemptions", 2, 3))
+	var m indexMutex
+	inside := 0
+	for t := 0; t < 3; t++ {
+		verifrt.Go(func() {
+			m.With("a", func() {
+				verifrt.Assert(inside == 0, "never two operations on the same repository at once (three contenders)")
+				inside++
+				verifrt.Yield()
+				inside--
+			})
+		})
+	}
+	verifrt.Observe("threads", 3)
+	verifrt.Reach("returned")
+}
+
 // H_C31_released: after all operations have finished (also an operation that panics), every lock is
 // free again: a following Global and With both run.
 func H_C31_released() {
